@@ -70,12 +70,12 @@ Print Assumptions C16_submission_appends.
 
 (* the cutter's arithmetic in the source (re-translated on every run) is the model's *)
 Theorem C16_code_cut_guard : forall p force (pending max : nat),
-  gen_cutter_cutGuard p force (Z.of_nat pending) (Z.of_nat max) = negb force && (pending <? max)%nat.
+  gen_cutter_cutGuard p force (Z.of_nat max) (Z.of_nat pending) = negb force && (pending <? max)%nat.
 Proof. exact cutter_cutGuard_tie. Qed.
 Print Assumptions C16_code_cut_guard.
 
 Theorem C16_code_batch_size : forall p (pending max : nat),
-  gen_cutter_batchSize p (Z.of_nat pending) (Z.of_nat max) = Z.of_nat (Nat.min pending max)
+  gen_cutter_batchSize p (Z.of_nat max) (Z.of_nat pending) = Z.of_nat (Nat.min pending max)
   /\ gen_cutter_maxOps p = MaxOperationCount p.
 Proof. exact (fun p a b => conj (cutter_batchSize_tie p a b) (cutter_maxOps_tie p)). Qed.
 Print Assumptions C16_code_batch_size.
